@@ -1,6 +1,30 @@
-(* C05: lifecycle entry points, comparing the observables this property is about *)
-From Coq Require Import NArith.
+(* C05: lifecycle traces (shared entry points, comparing the observables this property is about) and, in addition, the
+   sw-version block of Lifecycle::update on its own -- the only place where the lifecycle stage looks into a payload *)
+From Coq Require Import List NArith Bool.
 From AdltV Require Export Base.Obs Exec.Lifecycle.
-Definition case_C05 := case_LC.
-Definition agree_C05 := agree_LC_mode 5%N.
-Definition run_C05 := run_LC.
+From AdltV Require Import Base.Res Crash.ControlMsgs Lifecycle.SwVersion.
+Import ListNotations.
+Open Scope N_scope.
+
+(* (sw version the lifecycle already has, msg.is_ctrl_response(), first argument, second argument): the arguments are what the
+   real DltMessageArgIterator delivered for the message (payload_raw, is_big_endian) *)
+Definition swv_case := (option (list N) * bool * option (list N * bool) * option (list N * bool))%type.
+Inductive case_C05 := CStream (c : case_LC) | CSwv (c : swv_case).
+
+Definition o_optbytes (o : option (list N)) : otree :=
+  match o with None => T [] | Some b => T [T (map L b)] end.
+(* T [L 0; sw version afterwards] when the block returns, T [L 1] when it panics *)
+Definition run_swv (c : swv_case) : otree :=
+  let '(cur, resp, a1, a2) := c in
+  match sw_block cur resp a1 a2 with
+  | Ok r => T [L 0; o_optbytes r]
+  | _ => T [L 1]
+  end.
+
+Definition run_C05 (c : case_C05) : otree :=
+  match c with CStream s => run_LC s | CSwv s => run_swv s end.
+Definition agree_C05 (c : case_C05) (o : otree) : bool :=
+  match c with
+  | CStream s => agree_LC_mode 5 s o
+  | CSwv s => otree_eqb o (run_swv s)
+  end.
